@@ -506,3 +506,73 @@ func (p *Program) resolveParam(v ssa.Value) ssa.Value {
 	}
 	return v
 }
+
+// argNamed: the value a call passes for the callee's parameter called `name` — by the callee's own parameter list, not
+// by a fixed position; when the parameters have been grouped into a struct, the value the call site stored into the
+// field `name` of the struct literal it passes. idx is the reference position, used only when the callee cannot be
+// resolved. nil if nothing matches (the caller reports the obligation as undecided).
+func (p *Program) argNamed(call *ssa.Call, name string, idx int) ssa.Value {
+	args := call.Call.Args
+	callee := call.Call.StaticCallee()
+	if callee == nil || len(callee.Params) != len(args) {
+		if idx >= 0 && idx < len(args) {
+			return args[idx]
+		}
+		return nil
+	}
+	for i, prm := range callee.Params {
+		if prm.Name() == name {
+			return args[i]
+		}
+	}
+	for i, prm := range callee.Params {
+		t := prm.Type()
+		ptr := false
+		if pt, ok := t.Underlying().(*types.Pointer); ok {
+			t, ptr = pt.Elem(), true
+		}
+		st, ok := t.Underlying().(*types.Struct)
+		if !ok || (callee.Signature.Recv() != nil && i == 0) {
+			continue
+		}
+		fi := -1
+		for k := 0; k < st.NumFields(); k++ {
+			if st.Field(k).Name() == name {
+				fi = k
+			}
+		}
+		if fi < 0 {
+			continue
+		}
+		var al *ssa.Alloc
+		v := stripConv(args[i])
+		if ptr {
+			al, _ = v.(*ssa.Alloc)
+		} else if u, ok := v.(*ssa.UnOp); ok && u.Op == token.MUL {
+			al, _ = u.X.(*ssa.Alloc)
+		}
+		if al == nil {
+			continue
+		}
+		var val ssa.Value
+		n := 0
+		for _, r := range usesOf(al) {
+			if fa, ok := r.(*ssa.FieldAddr); ok && fa.Field == fi {
+				for _, r2 := range usesOf(fa) {
+					if st2, ok := r2.(*ssa.Store); ok && st2.Addr == ssa.Value(fa) {
+						val = st2.Val
+						n++
+					}
+				}
+			}
+		}
+		if n == 1 {
+			return val
+		}
+	}
+	if idx >= 0 && idx < len(args) {
+		// same arity as the reference and no parameter of that name: a renamed parameter at the reference position
+		return args[idx]
+	}
+	return nil
+}
